@@ -52,6 +52,8 @@ Definition tok_eqb (a b : tstoken (list str)) : bool :=
 Definition scan_tok (q : N) (src : str) := accept_template_string (list str) sub_word_scanner q src.
 Definition scan_ok (q : N) (src : str) (exp : res (tstoken (list str) * str)) : bool :=
   res_eqb_nopos (prod_eqb tok_eqb str_eqb) (scan_tok q src) exp.
+Definition str_ok (q : N) (src : str) (exp : res (str * str)) : bool :=
+  res_eqb_nopos (prod_eqb str_eqb str_eqb) (accept_string q src) exp.
 Definition seg_ok (q : N) (src : str) (exp : res (str * str)) : bool :=
   res_eqb_nopos (prod_eqb str_eqb str_eqb) (path_segment q src) exp.
 Definition val_ok (st : site) (q : N) (raw : str) (exp : res str) : bool :=
@@ -254,6 +256,25 @@ class Impl:
                 parts.append(("e", words))
         return ("tmpl", parts)
 
+    def direct_template_string(self, q: str, after: str) -> tuple[Any, str]:
+        """Lexer.accept_template_string called directly on the text after the
+        opening quote: (model token, remaining source)."""
+        src = q + after
+        lx = self.Lexer(self.env, src)
+        lx.pos = lx.start = 1
+        expr: list[Any] = []
+        lx.accept_template_string(quote=q, expression=expr)
+        assert len(expr) == 1
+        return self._model_token(expr[0]), src[lx.pos:]
+
+    def direct_string(self, q: str, after: str) -> tuple[str, str]:
+        """Lexer.accept_string called directly: (raw text, remaining source)."""
+        src = q + after
+        lx = self.Lexer(self.env, src)
+        lx.pos = lx.start = 1
+        lx.accept_string(quote=q)
+        return src[lx.start:lx.pos], src[lx.pos:]
+
     def path_segment(self, src: str) -> str:
         tok = self.tokens(src)[0].expression[0]
         return tok.path[1]
@@ -412,7 +433,18 @@ MAL_ALPHA = ["\\", "u", "d", "D", "8", "c", "C", "0", "e", "9", "f", "x", "'", '
              "\x07", "\x08", "n", "t", "/", "b", " ", "g", "é", "\U0001F600"]
 
 
+BOUNDARY = ["\\", "a\\", "\\u", "\\u1", "\\u12", "\\u123", "\\u1234", "\\u12345", "\\uD83D", "\\uD83D\\",
+            "\\uD83D\\u", "\\uD83D\\uDE0", "\\uD83D\\uDE00", "\\uD83D\\uD83D", "\\uDE00", "\\uDE00\\uD83D",
+            "\\uD83Dx\\uDE00", "\\uD83D\\xDE00", "\\u0007", "\\u0008", "\\uDBFF\\uDFFF", "\\uD800\\uDC00",
+            "\\uD7FF", "\\uE000", "\\uDC00", "\\uDFFF\\uDC00", "\\udbff\\udbff", "\\u00g0", "\\u 123", "\\U0041",
+            "\\x41", "\\a", "\\0", "\\'", "\\\"", "\\$", "\\u00e9\\", "\x07", "a\x00b", "\\uD83D\\uDE00\\uD83D",
+            "\\u0041\\u0042", "\\uFFFF", "\\uffff", "\\u0000", "\\t", "\\n", "\\r", "\\b", "\\f", "\\/", "\\\\",
+            "x\\u00e9", "\\u00e9x", "xx\\u00e", "\\uD83D\\uDE00x", "x\\uD83D\\uDE0", "\\uD83D\\uDE0g",
+            "\\uD83D\\uDBFF", "\\uD83D\\uE000", "\\uDBFF\\uDC00", "\\uD800\\uDFFF", "\\uD7FF\\uDC00"]
+
+
 def malformed(r: Any, valid: list[tuple[str, str]], n_rand: int) -> list[str]:
+    """Generated malformed / borderline raw texts (BOUNDARY is added by the caller)."""
     out: list[str] = []
     for _, raw in valid:
         for i in range(len(raw)):
@@ -424,20 +456,7 @@ def malformed(r: Any, valid: list[tuple[str, str]], n_rand: int) -> list[str]:
             out.append(raw[:i] + r.choice(MAL_ALPHA) + raw[i:])       # one insertion
     for _ in range(n_rand):
         out.append("".join(r.choice(MAL_ALPHA) for _ in range(r.randint(1, 14))))
-    # boundary cases of the 4-hex window and of surrogate handling
-    out += ["\\", "a\\", "\\u", "\\u1", "\\u12", "\\u123", "\\u1234", "\\u12345", "\\uD83D", "\\uD83D\\",
-            "\\uD83D\\u", "\\uD83D\\uDE0", "\\uD83D\\uDE00", "\\uD83D\\uD83D", "\\uDE00", "\\uDE00\\uD83D",
-            "\\uD83Dx\\uDE00", "\\uD83D\\xDE00", "\\u0007", "\\u0008", "\\uDBFF\\uDFFF", "\\uD800\\uDC00",
-            "\\uD7FF", "\\uE000", "\\uDC00", "\\uDFFF\\uDC00", "\\udbff\\udbff", "\\u00g0", "\\u 123", "\\U0041",
-            "\\x41", "\\a", "\\0", "\\'", "\\\"", "\\$", "\\u00e9\\", "\x07", "a\x00b", "\\uD83D\\uDE00\\uD83D",
-            "\\u0041\\u0042", "\\uFFFF", "\\uffff", "\\u0000"]
-    seen: set[str] = set()
-    res = []
-    for x in out:
-        if x not in seen:
-            seen.add(x)
-            res.append(x)
-    return res
+    return [x for x in dict.fromkeys(out) if x not in BOUNDARY]
 
 
 NUM_ALPHA = "019.eE+-x"
@@ -693,18 +712,43 @@ def tie_unescape(run: Run, inputs: list[str]) -> None:
                      {"value": raw, "got": out[1]})
 
 
-def tie_scanners(run: Run, inputs: list[tuple[str, str]], segments: bool) -> None:
-    im = run.im
+def tie_scanners(run: Run, inputs: list[tuple[str, str]], tails: list[str]) -> None:
+    """The scanners called directly (any input), and through tokenize() for the
+    inputs whose literal ends where the generator put the closing quote."""
+    im, r = run.im, run.r
     seen: set[tuple[str, str]] = set()
     for q, raw in inputs:
         if (q, raw) in seen or not no_surr(raw):
             continue
         seen.add((q, raw))
-        if not in_fragment(raw):
-            run.count("scan_outside_fragment")
+        closed = r.random() < 0.9
+        after = raw + (q + r.choice(tails) if closed else "")
+        eof_index_error = after == "" or after.endswith("}")     # DESIGN 10 item 3 (C02/C17): not generated
+        # accept_string
+        out = attempt(im.direct_string, q, after)
+        if not (out[0] == "err" and isinstance(out[1], IndexError) and eof_index_error):
+            exp = c_res(out, lambda v: f"({C.cstr(v[0])}, {C.cstr(v[1])})")
+            run.add("accept_string", f"str_ok {cq(q)} {C.cstr(after)} {exp}", f"accept_string {cq(q)} {C.cstr(after)}",
+                    {"function": "Lexer.accept_string", "quote": q, "after_quote": after,
+                     "implementation": out[1] if out[0] == "ok" else errname(out)})
+        # accept_template_string
+        if in_fragment(raw):
+            out = attempt(im.direct_template_string, q, after)
+            if not (out[0] == "err" and isinstance(out[1], IndexError) and eof_index_error):
+                exp = c_res(out, lambda v: f"({c_tok(v[0])}, {C.cstr(v[1])})")
+                run.add("accept_template_string", f"scan_ok {cq(q)} {C.cstr(after)} {exp}",
+                        f"scan_tok {cq(q)} {C.cstr(after)}",
+                        {"function": "Lexer.accept_template_string", "quote": q, "after_quote": after,
+                         "implementation": out[1] if out[0] == "ok" else errname(out)})
+            if "\\" in raw or "${" in raw:
+                run.nontrivial.add(f"s:{q}:{raw}")
         else:
+            run.count("scan_outside_fragment")
+        # the public path: tokenize() of a whole template
+        if _has_bare(raw, q):
+            continue
+        if in_fragment(raw):
             src = "{{ " + q + raw + q + " }}"
-            after = raw + q + " }}"
             out = attempt(im.string_token, src)
             if out[0] == "ok":
                 tok = im.tokens(src)[0].expression[0]
@@ -712,13 +756,10 @@ def tie_scanners(run: Run, inputs: list[tuple[str, str]], segments: bool) -> Non
                 exp = f"(Ok ({c_tok(out[1])}, {C.cstr(src[stop:])}))"
             else:
                 exp = c_err(out[1])
-            run.add("scan", f"scan_ok {cq(q)} {C.cstr(after)} {exp}", f"scan_tok {cq(q)} {C.cstr(after)}",
+            run.add("tokenize_string", f"scan_ok {cq(q)} {C.cstr(raw + q + ' }}')} {exp}",
+                    f"scan_tok {cq(q)} {C.cstr(raw + q + ' }}')}",
                     {"function": "liquid2.lexer.tokenize", "source": src,
                      "implementation": out[1] if out[0] == "ok" else errname(out)})
-            if "\\" in raw or "${" in raw:
-                run.nontrivial.add(f"s:{q}:{raw}")
-        if not segments:
-            continue
         psrc = "{{ x[" + q + raw + q + "] }}"
         pafter = raw + q + "] }}"
         pout = attempt(im.path_segment, psrc)
@@ -730,8 +771,8 @@ def tie_scanners(run: Run, inputs: list[tuple[str, str]], segments: bool) -> Non
             pexp = f"(Ok ({C.cstr(pout[1])}, {C.cstr(psrc[ptok.stop - 1:])}))"
         else:
             pexp = c_err(pout[1])
-        run.add("segment", f"seg_ok {cq(q)} {C.cstr(pafter)} {pexp}", f"path_segment {cq(q)} {C.cstr(pafter)}",
-                {"function": "tokenize (path segment)", "source": psrc,
+        run.add("tokenize_segment", f"seg_ok {cq(q)} {C.cstr(pafter)} {pexp}", f"path_segment {cq(q)} {C.cstr(pafter)}",
+                {"function": "liquid2.lexer.tokenize (path segment)", "source": psrc,
                  "implementation": pout[1] if pout[0] == "ok" else errname(pout)})
 
 
@@ -833,7 +874,7 @@ def tie_numbers(run: Run) -> None:
     num_inputs: list[str] = []
     for n in range(1, maxlen + 1):
         for combo in itertools.product(NUM_ALPHA, repeat=n):
-            if combo[0] in "019-":
+            if combo[0] in "019-" and (thorough or n < 4 or r.random() < 0.25):
                 num_inputs.append("".join(combo))
     for _ in range(300 if not thorough else 3000):
         num_inputs.append("".join(r.choice(NUM_ALPHA) for _ in range(r.randint(5, 10))))
@@ -974,23 +1015,25 @@ def main(chk: C.Check, build: C.Build) -> None:
     oracle_sites(run, longer, all_sites)
     lap("oracle_valid")
     mal = malformed(r, [(s, raw) for q, s, raw in short[:: 9] + longer[:: 3]], 300 if not thorough else 3000)
-    oracle_invalid(run, mal if thorough else mal[:: 2])
+    oracle_invalid(run, BOUNDARY + (mal if thorough else mal[:: 2]))
     lap("oracle_invalid")
 
-    # correspondence
-    k = 1 if thorough else 3
-    sub_short = [t for t in short if len(t[1]) <= 1] + [t for t in short if len(t[1]) == 2][:: 2 * k]
-    sub_three = three[:: (2 if not thorough else 40)]
+    # correspondence (quick: about 9000 cases in all)
+    k = 1 if thorough else 6
+    sub_short = [t for t in short if len(t[1]) <= 1] + [t for t in short if len(t[1]) == 2][:: k]
+    sub_three = three[:: (4 if not thorough else 25)]
     base = sub_short + sub_three + longer
-    tie_unescape(run, [raw.replace("\\'", "'") if q == SQ else raw for q, s, raw in base] + mal)
+    pick = (lambda l, n: l[:: n]) if not thorough else (lambda l, n: l[:: max(1, n // 4)])
+    tie_unescape(run, [raw.replace("\\'", "'") if q == SQ else raw for q, s, raw in base] + BOUNDARY + pick(mal, 3))
     lap("tie_unescape")
-    ts_cases = gen_template_strings(run, short[:: 3] + longer, 200 if not thorough else 2000)
-    scan_in = [(q, raw) for q, s, raw in base[:: (2 if not thorough else 1)]] \
-        + [(r.choice((SQ, DQ)), raw) for raw in mal[:: (2 if not thorough else 1)]] + ts_cases
-    tie_scanners(run, scan_in, True)
+    ts_cases = gen_template_strings(run, short[:: 3] + longer, 150 if not thorough else 1500)
+    scan_in = [(q, raw) for q, s, raw in pick(base, 3)] \
+        + [(q, raw) for raw in BOUNDARY for q in (SQ, DQ)] \
+        + [(r.choice((SQ, DQ)), raw) for raw in pick(mal, 16)] + ts_cases
+    tie_scanners(run, scan_in, [" }}", "", "] }}", "x", " | f: 'a'"])
     lap("tie_scanners")
-    val_in = [(q, raw) for q, s, raw in base[:: (2 if not thorough else 1)]] \
-        + [(r.choice((SQ, DQ)), raw) for raw in mal[:: (4 if not thorough else 2)]]
+    val_in = [(q, raw) for q, s, raw in pick(base, 3)] \
+        + [(r.choice((SQ, DQ)), raw) for raw in BOUNDARY + pick(mal, 16)]
     tie_site_values(run, val_in, 6 if not thorough else 2)
     lap("tie_site_values")
     tie_template_values(run, ts_cases)
@@ -1001,7 +1044,7 @@ def main(chk: C.Check, build: C.Build) -> None:
     lap("tie_json")
 
     if run.items and not os.environ.get("C20_NOCOQ"):
-        C.correspond(chk, "c20", IMPORTS, DEFS, run.items, what="literals", shard=300)
+        C.correspond(chk, "c20", IMPORTS, DEFS, run.items, what="literals", shard=max(400, len(run.items) // 15 + 1))
     lap("coq")
     C.proofs_verdict(chk, proofs_ok)
 
@@ -1016,8 +1059,8 @@ def main(chk: C.Check, build: C.Build) -> None:
                  "character (itself, two-character escape, \\uXXXX lower/upper case, surrogate pair lower/upper/mixed), in both "
                  "kinds of quotes%s, plus seeded longer strings over BMP + astral planes; the direct oracle renders them at %d sites "
                  "(%s); malformed: every prefix / one edit / one deletion / one insertion of valid spellings, random strings "
-                 "over an escape alphabet, hand-picked window and surrogate boundaries. numbers: every string of length <= %d "
-                 "over '%s' through the token regex, integer spellings up to 10^40 (and around 2^53, 10^22/23, 10^308/309, the "
+                 "over an escape alphabet, hand-picked window and surrogate boundaries. numbers: strings of length <= %d "
+                 "over '%s' starting with a digit or '-' (quick: all up to length 3, a seeded quarter of length 4) through the token regex, integer spellings up to 10^40 (and around 2^53, 10^22/23, 10^308/309, the "
                  "4300-digit limit) with e/E/+ exponents, decimal and scientific floats. json: seeded nested values. "
                  "non-trivial = the case contains an escape, an interpolation, a number beyond 2^53 or with an exponent, "
                  "or JSON text with an escape") % (
@@ -1032,7 +1075,7 @@ def main(chk: C.Check, build: C.Build) -> None:
              "rendered": str(attempt(im.render, "{{ x | json }}", {"x": "é\U0001F600\""})[1])},
         ],
         "distribution": dict(run.stats, oracle_sites=run.site_counts,
-                             valid_spellings=len(short) + len(three) + len(longer), malformed=len(mal)),
+                             valid_spellings=len(short) + len(three) + len(longer), malformed=len(mal) + len(BOUNDARY)),
         "timing_s": run.timing,
         "exhaustive": False,
         "tier_proved": "kernel (unescape, string scanners, parse-site denotation, numeric literals, json encoder)",
